@@ -80,6 +80,71 @@ func c07Batches(tier string) fw.Result {
 			})
 		}
 	}
-	a.sample(map[string]any{"queries": []string{qs[0].sql, qs[1].sql, qs[2].sql}, "values": vals, "keys": 2})
+	// two consecutive tumbling windows with several groups each: HAVING, ORDER BY and LIMIT apply to each window's own groups
+	tsql := "SELECT k, sum(v) AS s, count(*) AS n FROM stream GROUP BY k, TumblingWindow('2s') HAVING s > 3 WITH (TIMESTAMP='ts', TIMEUNIT='ms') ORDER BY s DESC, k LIMIT 1"
+	for L := 1; L <= maxL-2; L++ {
+		sequences(L, 8, func(seq []int) {
+			// symbol = window (0|1) x key (a|b) x value (1|4); arrivals ordered by window
+			var rows []Row
+			sums := [2]map[string]float64{{}, {}}
+			cnts := [2]map[string]int{{}, {}}
+			id := 0
+			for w := 0; w < 2; w++ {
+				for _, x := range seq {
+					if x/4 != w {
+						continue
+					}
+					id++
+					k, v := []string{"a", "b"}[(x/2)%2], vals[x%2]
+					rows = append(rows, Row{"id": id, "k": k, "v": v, "ts": int64(10000 + w*2000 + id*10)})
+					sums[w][k] += v
+					cnts[w][k]++
+				}
+			}
+			rows = append(rows, Row{"id": 99, "k": "zz", "v": 0.0, "ts": int64(500000)})
+			var want []string
+			for w := 0; w < 2; w++ {
+				best, bestK := 0.0, ""
+				for _, k := range []string{"a", "b"} {
+					if sm := sums[w][k]; cnts[w][k] > 0 && sm > 3 && (bestK == "" || sm > best) {
+						best, bestK = sm, k
+					}
+				}
+				if bestK != "" {
+					want = append(want, fmt.Sprintf("%s:s=%v,n=%d", bestK, best, cnts[w][bestK]))
+				}
+			}
+			r := detExec(tsql, detOpts{Eager: true, Horizon: 300 * vtime.Millisecond}, func(e *Env) {
+				for _, row := range rows {
+					e.Emit(copyVal(row).(map[string]any))
+				}
+			})
+			a.r.Evaluations++
+			a.r.States++
+			a.r.Transitions += int64(r.Steps)
+			cs := map[string]any{"sql": tsql, "rows": rows}
+			if r.ExecErr != "" || r.Status != sched.StatusOK {
+				a.fail("C07|batches|exec|tumbling", r.ExecErr+" "+r.Status.String()+" "+firstLine(r.Panic), cs, nil, nil)
+				return
+			}
+			var got []string
+			for _, b := range r.Batches {
+				for _, row := range b {
+					k, _ := row["k"].(string)
+					sm, _ := num(row["s"])
+					n, _ := num(row["n"])
+					got = append(got, fmt.Sprintf("%s:s=%v,n=%v", k, sm, n))
+				}
+			}
+			if len(want) > 0 {
+				a.r.Nontrivial++
+			}
+			a.outcome(strings.Join(got, ";"))
+			if strings.Join(got, ";") != strings.Join(want, ";") {
+				a.fail("C07|batches|tumbling-having-order-limit|window-wrong", fmt.Sprintf("%s: delivered %v, reference %v (each window judged on its own groups)", tsql, got, want), cs, want, got)
+			}
+		})
+	}
+	a.sample(map[string]any{"queries": []string{qs[0].sql, qs[1].sql, qs[2].sql, tsql}, "values": vals, "keys": 2})
 	return a.result()
 }
